@@ -11,6 +11,7 @@ import (
 	"testing"
 
 	"github.com/WICG/webpackage/go/signedexchange/mice"
+	"github.com/WICG/webpackage/go/verifh/gen"
 	"github.com/WICG/webpackage/go/verifh/ref/refmice"
 	"github.com/WICG/webpackage/go/verifh/vh"
 	"pgregory.net/rapid"
@@ -892,6 +893,151 @@ func TestPropArbitrary(t *testing.T) {
 		c.Reads = drawReads(t, rs)
 		c.Chunk = rapid.SampledFrom([]int{0, 0, 1, 7}).Draw(t, "chunk")
 		c.EOFWithData = rapid.Bool().Draw(t, "eof-with-data")
+		return c
+	})
+}
+
+// ------------------------------------------------------------------------ several live decoders
+//
+// A server verifies several streams at once. 2-4 decoders, each with the digest of ITS payload
+// and an honest stream (optionally truncated or with one bit flipped), are created at drawn
+// points of a schedule and read alternately with small destination buffers, in one goroutine.
+// Each decoder on its own must obey the property: whatever it hands out is a prefix of its own
+// payload, and clean EOF comes only after the whole payload (so buffers shared between decoder
+// objects, or recycled while still in use, show up as foreign or stale bytes).
+
+type LiveStream struct {
+	Draft int   `json:"draft"`
+	RS    int   `json:"rs"`
+	Len   int   `json:"len"`
+	Seed  int64 `json:"seed"`
+	Cut   int   `json:"cut,omitempty"`  // octets removed from the end of the stream
+	Flip  int   `json:"flip,omitempty"` // 1 + bit index to flip (0: none)
+	Dst   int   `json:"dst"`            // destination buffer size for every Read
+}
+
+type LiveCase struct {
+	Streams  []LiveStream `json:"streams"`
+	Schedule []int        `json:"schedule"` // which decoder reads next (index mod live count); a decoder is created on first use
+}
+
+var liveProp = vh.Define("C15", "interleaved", func(c LiveCase, r *vh.R) {
+	type live struct {
+		dec     io.Reader
+		payload []byte
+		got     []byte
+		done    bool
+		honest  bool
+	}
+	ls := make([]*live, len(c.Streams))
+	var all [][]byte
+	for i, st := range c.Streams {
+		if _, ok := encodingOf(st.Draft); !ok || st.RS < 1 || st.RS > 1<<16 || st.Len > 1<<18 || st.Dst < 1 {
+			r.Skip = true
+			return
+		}
+		all = append(all, Case{Len: st.Len, Seed: st.Seed}.payload())
+		_ = i
+	}
+	open := func(i int) *live {
+		st := c.Streams[i]
+		enc, _ := encodingOf(st.Draft)
+		p := all[i]
+		stream, header := refmice.Encode(st.Draft, p, st.RS)
+		stream = append([]byte{}, stream...)
+		honest := true
+		if st.Cut > 0 && st.Cut <= len(stream) {
+			stream = stream[:len(stream)-st.Cut]
+			honest = false
+		}
+		if st.Flip > 0 && (st.Flip-1)/8 < len(stream) {
+			stream[(st.Flip-1)/8] ^= 1 << uint((st.Flip-1)%8)
+			honest = false
+		}
+		dec, err := enc.NewDecoder(&countingReader{b: stream, chunk: 1 + i*7}, header, 1<<16)
+		if err != nil {
+			if honest {
+				r.Failf("honest-refused", "NewDecoder refused the honest stream %d (%+v): %v", i, st, err)
+			}
+			return &live{done: true, payload: p}
+		}
+		return &live{dec: dec, payload: p, honest: honest}
+	}
+	overlap := false
+	for step, pick := range c.Schedule {
+		i := pick % len(c.Streams)
+		if ls[i] == nil {
+			ls[i] = open(i)
+			if r.Failed() {
+				return
+			}
+		}
+		l := ls[i]
+		if l.done {
+			continue
+		}
+		for j, o := range ls {
+			if j != i && o != nil && !o.done && len(o.got) > 0 {
+				overlap = true
+			}
+		}
+		dst := make([]byte, c.Streams[i].Dst)
+		n, err := l.dec.Read(dst)
+		l.got = append(l.got, dst[:n]...)
+		if len(l.got) > len(l.payload) || !bytes.Equal(l.got, l.payload[:len(l.got)]) {
+			d := 0
+			for d < len(l.got) && d < len(l.payload) && l.got[d] == l.payload[d] {
+				d++
+			}
+			r.Failf("released-unauthenticated", "step %d: decoder %d (%+v), read alternately with %d other decoders, handed out %d octets that are not a prefix of its payload (first difference at octet %d: %x, payload has %x)",
+				step, i, c.Streams[i], len(c.Streams)-1, len(l.got), d, trunc(l.got[d:]), trunc(l.payload[minInt(d, len(l.payload)):]))
+			return
+		}
+		if err == io.EOF {
+			l.done = true
+			if len(l.got) != len(l.payload) {
+				r.Failf("clean-eof-early", "step %d: decoder %d (%+v) reported clean EOF after %d of %d payload octets", step, i, c.Streams[i], len(l.got), len(l.payload))
+				return
+			}
+		} else if err != nil {
+			l.done = true
+			if l.honest {
+				r.Failf("honest-rejected", "step %d: decoder %d (%+v), read alternately with other decoders, failed on its honest stream after %d of %d octets: %v", step, i, c.Streams[i], len(l.got), len(l.payload), err)
+				return
+			}
+		}
+	}
+	if overlap {
+		r.NT()
+		r.Class("lifetimes-overlap")
+	}
+})
+
+func TestPropInterleaved(t *testing.T) {
+	liveProp.Rapid(t, func(t *rapid.T) LiveCase {
+		var c LiveCase
+		n := rapid.IntRange(2, 4).Draw(t, "decoders")
+		for i := 0; i < n; i++ {
+			rs := rapid.SampledFrom([]int{1, 2, 7, 16, 16, 64, 100, 4096}).Draw(t, "rs")
+			st := LiveStream{Draft: rapid.SampledFrom([]int{2, 3}).Draw(t, "draft"), RS: rs, Seed: rapid.Int64Range(1, 1<<30).Draw(t, "seed")}
+			st.Len = gen.LenNear(t, "len", rs, 3*rs+2)
+			st.Dst = rapid.SampledFrom([]int{1, 3, rs / 2, rs, rs + 1, 2 * rs, 5}).Draw(t, "dst")
+			if st.Dst < 1 {
+				st.Dst = 1
+			}
+			switch rapid.IntRange(0, 5).Draw(t, "tamper") {
+			case 0:
+				st.Cut = rapid.IntRange(1, 40).Draw(t, "cut")
+			case 1:
+				st.Flip = 1 + rapid.IntRange(64, 64+8*(st.Len+40)).Draw(t, "flip")
+			}
+			c.Streams = append(c.Streams, st)
+		}
+		c.Schedule = rapid.SliceOfN(rapid.IntRange(0, 11), 6, 80).Draw(t, "schedule")
+		// then drain every decoder in turn
+		for k := 0; k < 400; k++ {
+			c.Schedule = append(c.Schedule, k%n)
+		}
 		return c
 	})
 }
